@@ -10,6 +10,8 @@ open Extracted.TH Guard
 theorem facts : stepsIsolated = true ∧ flushIsolated = true ∧ timerGuarded = true ∧ startGuarded = true ∧
     shutdownGuarded = true ∧ startedSetLast = true ∧ shutdownClearsStarted = true := by decide
 
+theorem facts2 : restartRefused = true ∧ shutdownMarksShut = true := by decide
+
 /-! ### the translated `TriggerHandler` methods -/
 
 theorem thStart_noTrace (w : World) : thStart true w = w := by simp [thStart]
@@ -72,8 +74,8 @@ theorem plugin_steps (f : Faults) (ps : List Nat) (d : Deep) :
 /-- what a shutdown of a started agent does, for every fault assignment -/
 theorem shutdown_started (f : Faults) (d : Deep) (hs : d.started = true) :
     shutdown f d = ({ d with w := thShutdown d.w, tasksOpen := false, pending := [], pollAlive := false,
-                             shutCalls := d.shutCalls ++ d.plugins, started := false }, false) := by
-  simp only [shutdown, facts.2.2.2.2.1, hs, facts.1, facts.2.2.2.2.2.2, runSteps_isolated, steps,
+                             shutCalls := d.shutCalls ++ d.plugins, started := false, everShut := true }, false) := by
+  simp only [shutdown, facts.2.2.2.2.1, hs, facts.1, facts.2.2.2.2.2.2, facts2.2, Bool.or_true, runSteps_isolated, steps,
     Bool.not_true, Bool.and_false, Bool.false_eq_true, if_false, if_true, List.foldl_append, List.foldl_cons,
     List.foldl_nil]
   rw [plugin_steps]
@@ -85,9 +87,13 @@ theorem shutdown_not_started (f : Faults) (d : Deep) (hs : d.started = false) : 
 theorem start_started (d : Deep) (hs : d.started = true) : start d = d := by
   simp [start, facts.2.2.2.1, hs]
 
-theorem start_not_started (d : Deep) (hs : d.started = false) :
+theorem start_not_started (d : Deep) (hs : d.started = false) (he : d.everShut = false) :
     start d = { d with w := thStart d.noTrace d.w, pollAlive := true, started := true } := by
-  simp [start, hs]
+  simp [start, hs, he]
+
+/-- an instance that was shut down is not started again -/
+theorem start_refused (d : Deep) (hs : d.started = false) (he : d.everShut = true) : start d = d := by
+  simp [start, hs, he, facts2.1]
 
 /-! ### the hook invariant over arbitrary histories -/
 
@@ -125,7 +131,10 @@ theorem inv_step (h1 h2 : Hook) (nt : Bool) (d : Deep) (hi : Inv h1 h2 nt d) (op
     cases hs : d.started with
     | true => rw [start_started d hs]; exact hi
     | false =>
-      rw [start_not_started d hs]
+      cases he : d.everShut with
+      | true => rw [start_refused d hs he]; exact hi
+      | false =>
+      rw [start_not_started d hs he]
       have ht := hi.stopped_idle hs
       have hh := hi.idle_hooks ht
       simp only [Deep.hooks, Prod.mk.injEq] at hh
@@ -206,9 +215,12 @@ theorem quiet_step (d : Deep) (hq : Quiet d) (op : Op) : Quiet (step d op) := by
     cases hs : d.started with
     | true => rw [start_started d hs]; exact hq
     | false =>
-      rw [start_not_started d hs]
-      have := thStart_keeps d.noTrace d.w
-      exact ⟨this.1.trans hq.1, this.2.trans hq.2⟩
+      cases he : d.everShut with
+      | true => rw [start_refused d hs he]; exact hq
+      | false =>
+        rw [start_not_started d hs he]
+        have := thStart_keeps d.noTrace d.w
+        exact ⟨this.1.trans hq.1, this.2.trans hq.2⟩
   | shutdown f =>
     simp only [step]
     cases hs : d.started with
@@ -234,5 +246,51 @@ theorem quiet_run (ops : List Op) (d : Deep) (hq : Quiet d) : Quiet (run ops d) 
   induction ops generalizing d with
   | nil => exact hq
   | cons op ops ih => exact ih _ (quiet_step d hq op)
+
+/-! ### shut down for good -/
+
+/-- the state of an instance after its shutdown: not started, not polling, marked -/
+def Dead (d : Deep) : Prop := d.everShut = true ∧ d.started = false ∧ d.pollAlive = false
+
+theorem dead_step (d : Deep) (hd : Dead d) (op : Op) : Dead (step d op) := by
+  obtain ⟨h1, h2, h3⟩ := hd
+  cases op with
+  | start => simp only [step]; rw [start_refused d h2 h1]; exact ⟨h1, h2, h3⟩
+  | shutdown f => simp only [step]; rw [shutdown_not_started f d h2]; exact ⟨h1, h2, h3⟩
+  | newConfig cfg => exact ⟨h1, h2, h3⟩
+  | pollTick fl =>
+    simp only [step]
+    cases fl with
+    | none => exact ⟨h1, h2, h3⟩
+    | some e => cases e <;> simp only [pollTick] <;> (try split) <;> exact ⟨h1, h2, by simp [h3]⟩
+  | hostSet s t =>
+    simp only [step, hostSet]
+    split <;> exact ⟨h1, h2, h3⟩
+
+theorem dead_run (ops : List Op) (d : Deep) (hd : Dead d) : Dead (run ops d) := by
+  induction ops generalizing d with
+  | nil => exact hd
+  | cons op ops ih => exact ih _ (dead_step d hd op)
+
+/-! ### one thread at a time -/
+
+/-- when every operation is called on thread `t0` (and the model's slot is that thread's), the several-thread
+    model is the one-slot model -/
+theorem runMT_same (t0 : Nat) (ops : List (Nat × Op)) (hsame : ∀ p ∈ ops, p.1 = t0) (m : MT)
+    (hm : m.slots t0 = m.d.w.sysHook) :
+    (runMT ops m).d = run (ops.map (·.2)) m.d ∧ (runMT ops m).slots t0 = (run (ops.map (·.2)) m.d).w.sysHook := by
+  induction ops generalizing m with
+  | nil => exact ⟨rfl, hm⟩
+  | cons p ops ih =>
+    obtain ⟨t, op⟩ := p
+    have ht : t = t0 := hsame (t, op) (List.mem_cons_self ..)
+    subst ht
+    have hd1 : ({ m.d with w := { m.d.w with sysHook := m.slots t } } : Deep) = m.d := by rw [hm]
+    have hstep : (stepOn t m op).d = step m.d op := by simp only [stepOn, hd1]
+    have hslot : (stepOn t m op).slots t = (stepOn t m op).d.w.sysHook := by simp [stepOn]
+    have := ih (fun q hq => hsame q (List.mem_cons_of_mem _ hq)) (stepOn t m op) hslot
+    simp only [runMT, List.map_cons, run, List.foldl_cons]
+    rw [hstep] at this
+    exact this
 
 end Lifecycle
